@@ -16,6 +16,9 @@ import time
 import traceback
 
 ROOT = os.path.dirname(os.path.dirname(os.path.abspath(__file__)))
+# where evidence/ and replays/ are written: /verif itself, except for runs against a scratch copy of the repository
+# (seed verification, mutation checks), which must never overwrite the evidence of the real tree
+OUT = os.environ.get("PYVC_OUT") or ROOT
 sys.path.insert(0, ROOT)
 
 QUICK_TIMEOUT_MS = 10000
@@ -322,8 +325,8 @@ def classify(mod, g):
 
 
 def report(pid, a, mod, results, bounded, seed, t0):
-    os.makedirs(os.path.join(ROOT, "evidence"), exist_ok=True)
-    os.makedirs(os.path.join(ROOT, "replays"), exist_ok=True)
+    os.makedirs(os.path.join(OUT, "evidence"), exist_ok=True)
+    os.makedirs(os.path.join(OUT, "replays"), exist_ok=True)
     known = read_known(pid)
     n_ob = n_dis = 0
     violations, undecided, errors, known_hit = [], [], [], []
@@ -452,7 +455,7 @@ def report(pid, a, mod, results, bounded, seed, t0):
     if level == "proof" and n_ob == 0:
         ev["level"] = "other"
         cov["explanation"] = cov["explanation"] or "bounded contract check only"
-    with open(os.path.join(ROOT, "evidence", f"{pid}.json"), "w", encoding="utf-8") as f:
+    with open(os.path.join(OUT, "evidence", f"{pid}.json"), "w", encoding="utf-8") as f:
         json.dump(ev, f, indent=1, default=str)
     print(f"{pid}: obligations={n_ob} discharged={n_dis} known={len(known_hit)} violations={len(vio_out)} "
           f"undecided={len(undecided)} bounded_parts={len(bounded)} wall={time.time() - t0:.1f}s exit={exit_code}")
@@ -469,7 +472,7 @@ def match_known(known, g):
 
 def write_replay(pid, g):
     h = hashlib.sha1((g["oid"] + "|" + str(g.get("class", ""))).encode()).hexdigest()[:10]     # one file per (obligation, witness class)
-    path = os.path.join(ROOT, "replays", f"{pid}-{h}.json")
+    path = os.path.join(OUT, "replays", f"{pid}-{h}.json")
     with open(path, "w", encoding="utf-8") as f:
         json.dump({"property": pid, "obligation": g["oid"], "what": g["descr"], "target": g.get("target"),
                    "class": g.get("class", ""), "solver": {"result": "refuted (negation satisfiable)",
